@@ -1,5 +1,412 @@
 import OasisModel.Proto
-/- C18 quote verification: driver stub (not built yet). -/
+import OasisModel.Pcs.Symbolic
+import OasisModel.Pcs.Parse
+/-
+Driver for the symbolic PCS quote verifier (`om_pcs`), used by harness/cmd/pcsdrv.
+
+One verification per line: space separated `key=value` tokens.
+The harness parses quote and collateral with the real Go code, re-evaluates every primitive
+(each ECDSA check, each x509 chain, SHA-256, PEM/JSON decoding) itself and sends the verdicts;
+the model runs the decision sequence `OasisModel.Pcs.verify` with its oracles instantiated
+by these verdicts and compares with what the implementation answered (`impl=`):
+
+  impl=accept:<mrenclave>:<mrsigner>:<reportdata>     or     impl=reject:<stage>
+
+Answer: `ok` or `DIVERGE model=<..> impl=<..>`.
+
+Keys (hex values; `-` or empty is the empty string):
+  dbg lax bl            process switches: allow-debug, lax, MRSIGNER blacklist (comma list)
+  pol=nil | pol=set dis val min wl blk tdx=nil|<mrseam|-:mrsignerseam;...>|-
+  ts                    verification time, ns since epoch (decimal, may be negative)
+  hdr tee kind body sig ak qer qes auth          parsed quote parts
+  cd=ppid|chain  certs=<id>:<pk|->:<ext>;...      ext: na | bad | ok/<fmspc|~>/<svn,..>/<pcesvn>
+  pckx=fail|<n>:<lastid>                          x509 verdict for the PCK chain
+  vqe vq vtcb vqeid akok h tdmr                   ECDSA verdicts, key check, SHA-256, TupleHash
+  tcb=nil|set  pem=fail|<certs>  tcbx=fail|<n>:<lastid>  tis qis   (signature hex strings)
+  ti=none|<id|version|issue|next|fmspc|eval|levels|modules>
+  qi=none|<id|version|issue|next|eval|misc|miscmask|attr|attrmask|mrsigner|prodid|levels>
+  raw=<hex>             optional: the raw quote; the model parses it itself (Parse.lean) and
+                        its parts must equal the ones above (`rawerr=<class>` if Go rejected it)
+-/
 namespace OasisModel.Pcs.Driver
-def main : IO Unit := IO.eprintln "mode not implemented"
+open OasisModel.Proto OasisModel.Pcs
+
+abbrev KV := List (String × String)
+
+def kvs (line : String) : KV :=
+  (words line).filterMap fun w =>
+    match w.splitOn "=" with
+    | [k, v] => some (k, v)
+    | [k] => some (k, "")
+    | _ => none
+
+def get (m : KV) (k : String) : Option String := (m.find? (·.1 == k)).map (·.2)
+
+def hex (s : String) : Option Bytes := if s == "" then some [] else parseHex s
+
+def getHex (m : KV) (k : String) : Except String Bytes :=
+  match get m k with
+  | none => .error s!"missing {k}"
+  | some v => match hex v with
+    | some b => .ok b
+    | none => .error s!"bad hex {k}"
+
+def parseInt (s : String) : Option Int :=
+  if s.startsWith "-" then (s.drop 1).toNat?.map (fun n => - (n : Int)) else s.toNat?.map (fun n => (n : Int))
+
+def getNat (m : KV) (k : String) : Except String Nat :=
+  match (get m k).bind String.toNat? with
+  | some n => .ok n
+  | none => .error s!"bad nat {k}"
+
+def getBool (m : KV) (k : String) : Except String Bool :=
+  match get m k with
+  | some "1" => .ok true
+  | some "0" => .ok false
+  | _ => .error s!"bad bool {k}"
+
+def listOf (s : String) (sep : String) : List String :=
+  if s == "-" || s == "" then [] else s.splitOn sep
+
+def hexList (s : String) : Except String (List Bytes) :=
+  (listOf s ",").mapM fun x => match hex x with
+    | some b => .ok b
+    | none => .error "bad hex list"
+
+/-- List of strings, each element written as `x<hex>` (so that the empty string is visible). -/
+def strList (s : String) : Except String (List Bytes) :=
+  (listOf s ",").mapM fun x => match hex (x.drop 1).toString with
+    | some b => .ok b
+    | none => .error "bad string list"
+
+def ints (s : String) : Except String (List Int) :=
+  (listOf s ",").mapM fun x => match parseInt x with
+    | some b => .ok b
+    | none => .error "bad int list"
+
+def parseExt (s : String) : Except String PckExt :=
+  if s == "na" || s == "bad" then .ok .bad else
+  match s.splitOn "/" with
+  | ["ok", f, svn, pce] => do
+    let f ← if f == "~" then pure none else match hex f with
+      | some b => pure (some b)
+      | none => throw "bad fmspc"
+    let svn ← ints svn
+    match pce.toNat? with
+    | some p => pure (.ok f svn p)
+    | none => throw "bad pcesvn"
+  | _ => .error "bad ext"
+
+def parseCerts (s : String) : Except String (List Cert) :=
+  (listOf s ";").mapM fun c =>
+    match c.splitOn ":" with
+    | [id, pk, ext] => do
+      let some id := hex id | throw "bad cert id"
+      let pk ← if pk == "-" then pure none else match hex pk with
+        | some b => pure (some b)
+        | none => throw "bad cert pk"
+      let ext ← parseExt ext
+      pure { der := id, ecdsaPk := pk, ext := ext }
+    | _ => .error "bad cert"
+
+def parseX (s : String) (leaf : Option Cert) : Except String (Option (List (List Cert))) :=
+  if s == "fail" then .ok none else
+  match s.splitOn ":" with
+  | [n, last] =>
+    match n.toNat?, hex last with
+    | some n, some last =>
+      let l := match leaf with
+        | some c => [c]
+        | none => []
+      .ok (some (List.replicate n (l ++ [{ der := last, ecdsaPk := none, ext := .bad }])))
+    | _, _ => .error "bad x509 verdict"
+  | _ => .error "bad x509 verdict"
+
+def parseEnclaveLevels (s : String) : Except String (List EnclaveLevel) :=
+  (listOf s ",").mapM fun l =>
+    match l.splitOn "." with
+    | [a, b] => match a.toNat?, b.toNat? with
+      | some a, some b => .ok { isvsvn := a, status := b }
+      | _, _ => .error "bad enclave level"
+    | _ => .error "bad enclave level"
+
+def parseTcbLevels (s : String) : Except String (List TcbLevel) :=
+  (listOf s ";").mapM fun l =>
+    match l.splitOn ":" with
+    | [p, a, b, st] => do
+      let a ← ints a
+      let b ← ints b
+      match p.toNat?, st.toNat? with
+      | some p, some st => pure { pcesvn := p, sgx := a, tdx := b, status := st }
+      | _, _ => throw "bad tcb level"
+    | _ => .error "bad tcb level"
+
+def parseModules (s : String) : Except String (List TdxModuleId) :=
+  (listOf s ";").mapM fun l =>
+    match l.splitOn ":" with
+    | [id, lv] => do
+      let some id := hex id | throw "bad module id"
+      let lv ← parseEnclaveLevels lv
+      pure { id := id, levels := lv }
+    | _ => .error "bad module"
+
+def parseTime (s : String) : Except String (Option Time) :=
+  if s == "x" then .ok none else match parseInt s with
+    | some t => .ok (some t)
+    | none => .error "bad time"
+
+def parseTi (s : String) : Except String (Option TcbInfo) :=
+  if s == "none" then .ok none else
+  match s.splitOn "|" with
+  | [id, ver, issue, next, fmspc, ev, lv, mods] => do
+    let some id := hex id | throw "bad ti id"
+    let some ver := parseInt ver | throw "bad ti version"
+    let issue ← parseTime issue
+    let some fmspc := hex fmspc | throw "bad ti fmspc"
+    let some ev := ev.toNat? | throw "bad ti eval"
+    let lv ← parseTcbLevels lv
+    let mods ← parseModules mods
+    pure (some { id := id, version := ver, issueDate := issue, nextUpdateOk := next == "1",
+                 fmspc := fmspc, evalNum := ev, levels := lv, modules := mods })
+  | _ => .error "bad ti"
+
+def parseQi (s : String) : Except String (Option QeIdentity) :=
+  if s == "none" then .ok none else
+  match s.splitOn "|" with
+  | [id, ver, issue, next, ev, misc, miscm, attr, attrm, mrs, prod, lv] => do
+    let some id := hex id | throw "bad qi id"
+    let some ver := parseInt ver | throw "bad qi version"
+    let issue ← parseTime issue
+    let some ev := ev.toNat? | throw "bad qi eval"
+    let some misc := hex misc | throw "bad qi misc"
+    let some miscm := hex miscm | throw "bad qi miscmask"
+    let some attr := hex attr | throw "bad qi attr"
+    let some attrm := hex attrm | throw "bad qi attrmask"
+    let some mrs := hex mrs | throw "bad qi mrsigner"
+    let some prod := prod.toNat? | throw "bad qi prodid"
+    let lv ← parseEnclaveLevels lv
+    pure (some { id := id, version := ver, issueDate := issue, nextUpdateOk := next == "1",
+                 evalNum := ev, miscSelect := misc, miscSelectMask := miscm, attributes := attr,
+                 attributesMask := attrm, mrSigner := mrs, isvProdId := prod, levels := lv })
+  | _ => .error "bad qi"
+
+def parseTdxMods (s : String) : Except String (List TdxModulePolicy) :=
+  (listOf s ";").mapM fun l =>
+    match l.splitOn ":" with
+    | [seam, signer] => do
+      let seam ← if seam == "-" then pure none else match hex seam with
+        | some b => pure (some b)
+        | none => throw "bad mrseam"
+      let some signer := hex signer | throw "bad mrsignerseam"
+      pure { mrSeam := seam, mrSignerSeam := signer }
+    | _ => .error "bad tdx module policy"
+
+def parsePolicy (m : KV) : Except String (Option Policy) :=
+  match get m "pol" with
+  | some "nil" => .ok none
+  | some "set" => do
+    let dis ← getBool m "dis"
+    let val ← getNat m "val"
+    let min ← getNat m "min"
+    let wl ← strList ((get m "wl").getD "-")
+    let blk ← strList ((get m "blk").getD "-")
+    let tdx ← match get m "tdx" with
+      | some "nil" => pure none
+      | some s => do pure (some (← parseTdxMods s))
+      | none => throw "missing tdx"
+    pure (some { disabled := dis, validity := val, minEval := min, whitelist := wl,
+                 blacklist := blk, tdx := tdx })
+  | _ => .error "bad pol"
+
+/-- Symbolic stand-ins for the two signed JSON bodies (the model never looks inside them). -/
+def tagTcb : Bytes := [1]
+def tagQe : Bytes := [2]
+def tagPem : Bytes := [3]
+
+structure Case where
+  L : Lib
+  env : Env
+  pol : Option Policy
+  ts : Time
+  q : Quote
+  tcb : Option Bundle
+
+def parseCase (m : KV) : Except String Case := do
+  let dbg ← getBool m "dbg"
+  let lax ← getBool m "lax"
+  let bl ← hexList ((get m "bl").getD "-")
+  let pol ← parsePolicy m
+  let some ts := (get m "ts").bind parseInt | throw "bad ts"
+  let hdr ← getHex m "hdr"
+  let tee ← getNat m "tee"
+  let kind ← match get m "kind" with
+    | some "sgx" => pure BodyKind.sgx
+    | some "td" => pure BodyKind.td
+    | _ => throw "bad kind"
+  let body ← getHex m "body"
+  let sig ← getHex m "sig"
+  let ak ← getHex m "ak"
+  let qer ← getHex m "qer"
+  let qes ← getHex m "qes"
+  let auth ← getHex m "auth"
+  let cd ← match get m "cd" with
+    | some "ppid" => pure CertData.ppid
+    | some "chain" => do pure (CertData.chain (← parseCerts ((get m "certs").getD "-")))
+    | _ => throw "bad cd"
+  let q : Quote := { headerRaw := hdr, teeType := tee, bodyKind := kind, bodyRaw := body, sig := sig,
+                     attKey := ak, qeReport := qer, qeReportSig := qes, authData := auth,
+                     certData := cd }
+  let leaf := match cd with
+    | .chain (c :: _) => some c
+    | _ => none
+  let pckx ← parseX ((get m "pckx").getD "fail") leaf
+  let vqe ← getBool m "vqe"
+  let vq ← getBool m "vq"
+  let akok ← getBool m "akok"
+  let h ← getHex m "h"
+  let tdmr ← getHex m "tdmr"
+  let pckPk := match leaf with
+    | some c => c.ecdsaPk.getD []
+    | none => []
+  match get m "tcb" with
+  | some "nil" =>
+    let L : Lib := {
+      ecdsaOK := fun pk msg s =>
+        if pk == pckPk && msg == qer && s == qes then vqe
+        else if pk == ak && msg == hdr ++ body && s == sig then vq else false
+      sha256 := fun x => if x == ak ++ auth then h else []
+      attKeyOK := fun _ => akok
+      x509Verify := fun _ inters _ => if inters.isEmpty then none else pckx
+      pem := fun _ => none
+      jsonTcb := fun _ => none
+      jsonQe := fun _ => none
+      tdMr := fun _ => tdmr }
+    pure { L := L, env := { allowDebug := dbg, lax := lax, mrSignerBlacklist := bl }, pol := pol,
+           ts := ts, q := q, tcb := none }
+  | some "set" =>
+    let pem ← match get m "pem" with
+      | some "fail" => pure none
+      | some s => do pure (some (← parseCerts s))
+      | none => throw "missing pem"
+    let tcbLeaf := match pem with
+      | some (c :: _) => some c
+      | _ => none
+    let tcbx ← parseX ((get m "tcbx").getD "fail") tcbLeaf
+    let tis ← getHex m "tis"
+    let qis ← getHex m "qis"
+    let vtcb ← getBool m "vtcb"
+    let vqeid ← getBool m "vqeid"
+    let ti ← parseTi ((get m "ti").getD "none")
+    let qi ← parseQi ((get m "qi").getD "none")
+    let tcbPk := match tcbLeaf with
+      | some c => c.ecdsaPk.getD []
+      | none => []
+    let L : Lib := {
+      ecdsaOK := fun pk msg s =>
+        if pk == pckPk && msg == qer && s == qes then vqe
+        else if pk == ak && msg == hdr ++ body && s == sig then vq
+        else if pk == tcbPk && msg == tagTcb && some s == sigFromHex tis then vtcb
+        else if pk == tcbPk && msg == tagQe && some s == sigFromHex qis then vqeid
+        else false
+      sha256 := fun x => if x == ak ++ auth then h else []
+      attKeyOK := fun _ => akok
+      x509Verify := fun _ inters _ => if inters.isEmpty then tcbx else pckx
+      pem := fun _ => pem
+      jsonTcb := fun r => if r == tagTcb then ti else none
+      jsonQe := fun r => if r == tagQe then qi else none
+      tdMr := fun _ => tdmr }
+    pure { L := L, env := { allowDebug := dbg, lax := lax, mrSignerBlacklist := bl }, pol := pol,
+           ts := ts, q := q,
+           tcb := some { tcbInfo := { raw := tagTcb, sigHex := tis },
+                         qeId := { raw := tagQe, sigHex := qis }, certs := tagPem } }
+  | _ => throw "bad tcb"
+
+def showResult : Except Stage Verified → String
+  | .ok v => s!"accept:{showHex v.mrEnclave}:{showHex v.mrSigner}:{showHex v.reportData}"
+  | .error s => s!"reject:{s.name}"
+
+/-- Compare the model's own parse of the raw quote with the parts the Go parser produced. -/
+def checkRaw (m : KV) (c : Option Case) : Option String :=
+  match get m "raw" with
+  | none => none
+  | some r =>
+    match hex r with
+    | none => some "bad raw hex"
+    | some raw =>
+      let res := parseQuote raw
+      match get m "rawerr", res, c with
+      | some e, .error pe, _ =>
+        if e == pe.name || e == "?" then none else some s!"parse error class model={pe.name} impl={e}"
+      | some e, .ok p, _ =>
+        -- PEM/x509 decoding of the chain is an oracle: the model's structural parse succeeds
+        if (e == "pem" && p.isChain) || e == "?" then none else some s!"parse model=ok impl=error:{e}"
+      | none, .error pe, _ => some s!"parse model=error:{pe.name} impl=ok"
+      | none, .ok _, none => some "parse ok but no parts given"
+      | none, .ok p, some c =>
+        let q := c.q
+        if p.headerRaw != q.headerRaw then some "parse: header differs"
+        else if p.teeType != q.teeType then some "parse: tee type differs"
+        else if p.bodyKind != q.bodyKind then some "parse: body kind differs"
+        else if p.bodyRaw != q.bodyRaw then some "parse: body differs"
+        else if p.sig != q.sig then some "parse: signature differs"
+        else if p.attKey != q.attKey then some "parse: attestation key differs"
+        else if p.qeReport != q.qeReport then some "parse: QE report differs"
+        else if p.qeReportSig != q.qeReportSig then some "parse: QE report signature differs"
+        else if p.authData != q.authData then some "parse: auth data differs"
+        else if p.isChain != (match q.certData with | .chain _ => true | .ppid => false) then
+          some "parse: certification data type differs"
+        else none
+
+/-- Node registration (`SGXAttestation.Verify`): `att=<hash of the RAK>`, `allowed=<mre:mrs;..>`,
+`implatt=ok|identity|rak|quote`. -/
+def checkAtt (m : KV) (c : Case) (res : Except Stage Verified) : Option String :=
+  match get m "att", get m "implatt" with
+  | some a, some ia =>
+    match hex a, (listOf ((get m "allowed").getD "-") ";").mapM (fun p =>
+        match p.splitOn ":" with
+        | [x, y] => match hex x, hex y with
+          | some x, some y => some (x, y)
+          | _, _ => none
+        | _ => none) with
+    | some rak, some allowed =>
+      let want := match res with
+        | .error _ => "quote"
+        | .ok v =>
+          if !(allowed.contains (v.mrEnclave, v.mrSigner)) then "identity"
+          else if slice v.reportData 0 32 != rak then "rak" else "ok"
+      let ok := attestationOK c.L c.env c.pol c.ts c.q c.tcb allowed rak
+      if want != ia then some s!"attestation model={want} impl={ia}"
+      else if ok != (ia == "ok") then some s!"attestationOK={ok} impl={ia}"
+      else none
+    | _, _ => some "bad attestation fields"
+  | _, _ => none
+
+def step (_ : Unit) (line : String) : Unit × String :=
+  let m := kvs line
+  if m.isEmpty then ((), "ok") else
+  match get m "rawerr" with
+  | some _ =>
+    -- the Go parser rejected the raw quote: only the parse verdict is compared
+    match checkRaw m none with
+    | none => ((), "ok")
+    | some d => ((), "DIVERGE " ++ d)
+  | none =>
+  match parseCase m with
+  | .error e => ((), "DIVERGE bad-line " ++ e)
+  | .ok c =>
+    match checkRaw m (some c) with
+    | some d => ((), "DIVERGE " ++ d)
+    | none =>
+    let res := verify c.L c.env c.pol c.ts c.q c.tcb
+    let r := showResult res
+    let impl := (get m "impl").getD ""
+    match checkAtt m c res with
+    | some d => ((), "DIVERGE " ++ d)
+    | none =>
+    if r == impl then ((), "ok")
+    else if impl == "reject:?" && r.startsWith "reject:" then ((), "ok " ++ r)
+    else ((), s!"DIVERGE model={r} impl={impl}")
+
+def main : IO Unit := loop step ()
+
 end OasisModel.Pcs.Driver
